@@ -444,6 +444,7 @@ type spec struct {
 	jseed  int64
 	mech   string // "" = no SMTP auth; plain login cram scram1 scram256 auto
 	warm   bool   // DialAndSend-only rounds: one sequential DialWithContext+Close before the concurrent calls
+	cold   bool   // kind mixedcold: the round runs as the FIRST thing of a fresh worker process and the goroutines also build their messages themselves
 	logm   string // "" = no debug log; s = WithDebugLog + log.New (Stdlog), j = log.NewJSON, d = WithDebugLog only (per-connection default logger on os.Stderr)
 	tls    string // "" = NoTLS; o/m = STARTTLS opportunistic/mandatory with a caller-supplied tls.Config WITHOUT ServerName; O/M = with ServerName and verification
 }
@@ -455,6 +456,10 @@ var authTypes = map[string]mail.SMTPAuthType{"plain": mail.SMTPAuthPlain, "login
 func parseSpec(c hx.Case) (spec, error) {
 	var sp spec
 	kp := strings.Split(c.Kind, ":")
+	if kp[0] == "mixedcold" {
+		sp.cold = true
+		kp[0] = "mixed"
+	}
 	if kp[0] != "mixed" || len(c.Args) < 4 || (len(kp) != 1 && len(kp) != 3 && len(kp) != 4 && len(kp) != 5) {
 		return sp, fmt.Errorf("bad case %q", c.Line())
 	}
@@ -760,7 +765,7 @@ func runRound(sp spec) (res result) {
 		return
 	}
 	msgs := make([]*mail.Msg, n)
-	for i := 0; i < n; i++ {
+	for i := 0; i < n && !sp.cold; i++ {
 		if msgs[i], err = buildMsg(i+1, sp.rcpts[i], rng); err != nil {
 			fail("harness-msg", "%v", err)
 			res.observable = "HARNESS-ERROR"
@@ -799,6 +804,13 @@ func runRound(sp spec) (res result) {
 			defer wg.Done()
 			<-start
 			time.Sleep(delays[i])
+			if sp.cold { // cold start: the first NewMsg / setters / render of the process happen concurrently
+				var berr error
+				if msgs[i], berr = buildMsg(i+1, sp.rcpts[i], rand.New(rand.NewSource(sp.jseed+int64(i)))); berr != nil {
+					errs[i] = berr
+					return
+				}
+			}
 			if i < sp.ns {
 				errs[i] = client.Send(msgs[i])
 			} else {
@@ -881,7 +893,7 @@ func runRound(sp spec) (res result) {
 		if e != nil {
 			allOK = false
 			fail("send-error", "goroutine %d (%s): %v", i, map[bool]string{true: "Send", false: "DialAndSend"}[i < sp.ns], e)
-		} else if !msgs[i].IsDelivered() {
+		} else if msgs[i] == nil || !msgs[i].IsDelivered() {
 			allOK = false
 			fail("not-delivered", "goroutine %d returned nil but IsDelivered() is false", i)
 		}
@@ -1070,7 +1082,7 @@ func serialCheck(st []item, sp spec) bool {
 // generation, worker protocol
 
 func genCases(r *hx.Run) []hx.Case {
-	rounds := 88
+	rounds := 92
 	if r.Tier == "thorough" {
 		rounds = 2000
 	}
@@ -1088,6 +1100,7 @@ func genCases(r *hx.Run) []hx.Case {
 		// STARTTLS with a caller-supplied tls.Config shared by all connections of the Client
 		{12, 0, "mixed:none:0:m"}, {12, 0, "mixed:login:0:o"}, {8, 0, "mixed:none:0:M"}, {8, 3, "mixed:plain:0:O"}, {16, 0, "mixed:scram256:1:m"}, {6, 6, "mixed:none:0:o"},
 		// debug logging on: Stdlog / JSON / default logger, two or more connections of one Client active
+		{8, 0, "mixedcold"}, {8, 3, "mixedcold"}, {8, 0, "mixedcold:login:0"}, {6, 0, "mixedcold:none:0:m:s"},
 		{8, 3, "mixed:none:0:-:s"}, {12, 0, "mixed:none:0:-:s"}, {8, 3, "mixed:none:0:-:j"}, {12, 0, "mixed:none:0:-:j"}, {8, 3, "mixed:none:0:-:d"}, {16, 0, "mixed:none:1:-:s"}}
 	var out []hx.Case
 	for k := 0; k < rounds; k++ {
@@ -1114,7 +1127,10 @@ func genCases(r *hx.Run) []hx.Case {
 		if kind == "mixed" && r.Rng.Intn(4) == 0 { // a quarter of the plain rounds run with the debug log on
 			kind = "mixed:none:0:-:" + string("sjd"[r.Rng.Intn(3)])
 		}
-		if r.Tier == "thorough" && kind != "mixed" {
+		if r.Rng.Intn(12) == 0 { // cold start in a fresh process
+			kind = "mixedcold" + kind[len("mixed"):]
+		}
+		if r.Tier == "thorough" && kind != "mixed" && !strings.HasPrefix(kind, "mixedcold") {
 			// schedule search on the auth rounds: mostly DialAndSend-only shapes with many goroutines
 			n = []int{16, 24, 32, 48, 64, 64}[r.Rng.Intn(6)]
 			if r.Rng.Intn(3) != 0 {
@@ -1216,129 +1232,150 @@ func Run(r *hx.Run, replay []hx.Case) {
 	for _, c := range cases {
 		byID[c.ID] = c
 	}
-	pending := cases
+	// cold-start rounds get a worker process of their own (lazily initialised package-level state of the library is
+	// then first touched by concurrent goroutines); all other rounds share one worker
+	var batches [][]hx.Case
+	var warmBatch []hx.Case
+	for _, c := range cases {
+		if strings.HasPrefix(c.Kind, "mixedcold") {
+			batches = append(batches, []hx.Case{c})
+		} else {
+			warmBatch = append(warmBatch, c)
+		}
+	}
+	if len(warmBatch) > 0 {
+		batches = append(batches, warmBatch)
+	}
 	races := 0
 	failing := map[string]bool{} // rounds with an oracle failure; the run stops after the third one
 	hangs := 0
-	for attempt := 0; len(pending) > 0 && attempt < 6; attempt++ {
-		var in bytes.Buffer
-		for _, c := range pending {
-			in.WriteString(c.Line() + "\n")
+	for _, pending := range batches {
+		if len(failing) >= 3 || hangs >= 2 || r.Expired() {
+			break
 		}
-		cmd := exec.Command(os.Args[0], os.Args[1:]...)
-		cmd.Env = append(os.Environ(), "C13_WORKER=1", "GORACE=halt_on_error=1 exitcode=66")
-		cmd.Stdin = &in
-		var stderr bytes.Buffer
-		cmd.Stderr = &stderr
-		stdout, err := cmd.StdoutPipe()
-		if err != nil {
-			r.Fail("harness", "harness-worker", err.Error())
-			return
-		}
-		if err := cmd.Start(); err != nil {
-			r.Fail("harness", "harness-worker", err.Error())
-			return
-		}
-		finished := map[string]bool{}
-		inflight := ""
-		sc := bufio.NewScanner(stdout)
-		sc.Buffer(make([]byte, 1<<20), 1<<26)
-		stop := false
-		for sc.Scan() {
-			t := strings.SplitN(sc.Text(), " ", 4)
-			switch {
-			case t[0] == "X":
-				hangs++
-			case t[0] == "S" && len(t) >= 2:
-				inflight = t[1]
-			case t[0] == "F" && len(t) >= 4:
-				r.Fail(t[1], t[2], t[3])
-				failing[t[1]] = true
-			case t[0] == "R" && len(t) >= 4:
-				c := byID[t[1]]
-				c.Args = append(append([]string(nil), c.Args[:4]...), t[2])
-				sp, _ := parseSpec(c)
-				r.Add(c, t[3], sp.ns+sp.nd >= 2)
-				r.Dist[fmt.Sprintf("goroutines<=%d", bucket(sp.ns+sp.nd))]++
-				if sp.tls != "" {
-					r.Dist["starttls:"+sp.tls]++
-				}
-				if sp.logm != "" {
-					r.Dist["debuglog:"+sp.logm]++
-				}
-				if sp.mech != "" {
-					r.Dist["auth:"+sp.mech]++
-					if sp.ns == 0 {
-						r.Dist[map[bool]string{true: "dial-shape:after-warm-up", false: "dial-shape:first-dials-overlap"}[sp.warm]]++
-					}
-				} else {
-					r.Dist["auth:none"]++
-				}
+		for attempt := 0; len(pending) > 0 && attempt < 6; attempt++ {
+			var in bytes.Buffer
+			for _, c := range pending {
+				in.WriteString(c.Line() + "\n")
+			}
+			cmd := exec.Command(os.Args[0], os.Args[1:]...)
+			cmd.Env = append(os.Environ(), "C13_WORKER=1", "GORACE=halt_on_error=1 exitcode=66")
+			cmd.Stdin = &in
+			var stderr bytes.Buffer
+			cmd.Stderr = &stderr
+			stdout, err := cmd.StdoutPipe()
+			if err != nil {
+				r.Fail("harness", "harness-worker", err.Error())
+				return
+			}
+			if err := cmd.Start(); err != nil {
+				r.Fail("harness", "harness-worker", err.Error())
+				return
+			}
+			finished := map[string]bool{}
+			inflight := ""
+			sc := bufio.NewScanner(stdout)
+			sc.Buffer(make([]byte, 1<<20), 1<<26)
+			stop := false
+			for sc.Scan() {
+				t := strings.SplitN(sc.Text(), " ", 4)
 				switch {
-				case sp.nd == 0:
-					r.Dist["mode:shared-connection"]++
-				case sp.ns == 0:
-					r.Dist["mode:dial-and-send"]++
-				default:
-					r.Dist["mode:mixed"]++
+				case t[0] == "X":
+					hangs++
+				case t[0] == "S" && len(t) >= 2:
+					inflight = t[1]
+				case t[0] == "F" && len(t) >= 4:
+					r.Fail(t[1], t[2], t[3])
+					failing[t[1]] = true
+				case t[0] == "R" && len(t) >= 4:
+					c := byID[t[1]]
+					c.Args = append(append([]string(nil), c.Args[:4]...), t[2])
+					sp, _ := parseSpec(c)
+					r.Add(c, t[3], sp.ns+sp.nd >= 2)
+					r.Dist[fmt.Sprintf("goroutines<=%d", bucket(sp.ns+sp.nd))]++
+					if sp.tls != "" {
+						r.Dist["starttls:"+sp.tls]++
+					}
+					if sp.logm != "" {
+						r.Dist["debuglog:"+sp.logm]++
+					}
+					if sp.cold {
+						r.Dist["cold-start-process"]++
+					}
+					if sp.mech != "" {
+						r.Dist["auth:"+sp.mech]++
+						if sp.ns == 0 {
+							r.Dist[map[bool]string{true: "dial-shape:after-warm-up", false: "dial-shape:first-dials-overlap"}[sp.warm]]++
+						}
+					} else {
+						r.Dist["auth:none"]++
+					}
+					switch {
+					case sp.nd == 0:
+						r.Dist["mode:shared-connection"]++
+					case sp.ns == 0:
+						r.Dist["mode:dial-and-send"]++
+					default:
+						r.Dist["mode:mixed"]++
+					}
+					finished[t[1]] = true
+					inflight = ""
+					if r.Expired() || len(failing) >= 3 {
+						stop = true
+					}
 				}
-				finished[t[1]] = true
-				inflight = ""
-				if r.Expired() || len(failing) >= 3 {
-					stop = true
+				if stop {
+					break
 				}
 			}
 			if stop {
+				_ = cmd.Process.Kill()
+				_ = cmd.Wait()
 				break
 			}
+			werr := cmd.Wait()
+			es := stderr.String()
+			if strings.Contains(es, "DATA RACE") {
+				races++
+				id := inflight
+				if id == "" && len(pending) > 0 {
+					id = pending[0].ID
+				}
+				r.Fail(id, "data-race", summariseRace(es))
+				failing[id] = true
+				if c, ok := byID[id]; ok && !finished[id] {
+					c.Args = append(append([]string(nil), c.Args[:4]...), "-")
+					r.Add(c, "DATA-RACE", true)
+					finished[id] = true
+				}
+				_ = os.WriteFile(r.Dir+"/race_report.txt", []byte(es), 0o644)
+			} else if werr != nil {
+				id := inflight
+				if id == "" {
+					id = "harness"
+				}
+				tail := es
+				if len(tail) > 600 {
+					tail = tail[len(tail)-600:]
+				}
+				r.Fail(id, "worker-crash", fmt.Sprintf("%v: %s", werr, strings.ReplaceAll(tail, "\n", " ")))
+				if c, ok := byID[id]; ok && !finished[id] {
+					c.Args = append(append([]string(nil), c.Args[:4]...), "-")
+					r.Add(c, "CRASH", true)
+					finished[id] = true
+				}
+			}
+			var rest []hx.Case
+			for _, c := range pending {
+				if !finished[c.ID] {
+					rest = append(rest, c)
+				}
+			}
+			if len(rest) == len(pending) || hangs >= 2 || len(failing) >= 3 {
+				break
+			}
+			pending = rest
 		}
-		if stop {
-			_ = cmd.Process.Kill()
-			_ = cmd.Wait()
-			break
-		}
-		werr := cmd.Wait()
-		es := stderr.String()
-		if strings.Contains(es, "DATA RACE") {
-			races++
-			id := inflight
-			if id == "" && len(pending) > 0 {
-				id = pending[0].ID
-			}
-			r.Fail(id, "data-race", summariseRace(es))
-			failing[id] = true
-			if c, ok := byID[id]; ok && !finished[id] {
-				c.Args = append(append([]string(nil), c.Args[:4]...), "-")
-				r.Add(c, "DATA-RACE", true)
-				finished[id] = true
-			}
-			_ = os.WriteFile(r.Dir+"/race_report.txt", []byte(es), 0o644)
-		} else if werr != nil {
-			id := inflight
-			if id == "" {
-				id = "harness"
-			}
-			tail := es
-			if len(tail) > 600 {
-				tail = tail[len(tail)-600:]
-			}
-			r.Fail(id, "worker-crash", fmt.Sprintf("%v: %s", werr, strings.ReplaceAll(tail, "\n", " ")))
-			if c, ok := byID[id]; ok && !finished[id] {
-				c.Args = append(append([]string(nil), c.Args[:4]...), "-")
-				r.Add(c, "CRASH", true)
-				finished[id] = true
-			}
-		}
-		var rest []hx.Case
-		for _, c := range pending {
-			if !finished[c.ID] {
-				rest = append(rest, c)
-			}
-		}
-		if len(rest) == len(pending) || hangs >= 2 || len(failing) >= 3 {
-			break
-		}
-		pending = rest
 	}
 	r.Notes["race_reports"] = races
 	r.Notes["hangs"] = hangs
